@@ -583,14 +583,14 @@ pub proof fn lemma_mul_le(a: int, b: int, p: int)
     assert(a * p <= b * p) by (nonlinear_arith) requires a <= b, p >= 0;
 }
 
-pub broadcast proof fn lemma_normalize(y: u128, r: int, xh: u128, xl: u128, s: u128)
+pub broadcast proof fn lemma_normalize(y: u128, r: int, xh: u128, xl: u128, s: u128, sh: u128)
     requires
         #[trigger] is_msb(y, r), s == 127 - r, xh < y, y >= B64(),
+        sh == (if s == 0 { 0u128 } else { xl >> ((128 - s) as u128) }),
     ensures
         s <= 63,
         norm_ok(u256(xh as int, xl as int), y as int, p2(s as int),
-            ((#[trigger] (xh << s)) | (if s == 0 { 0u128 } else { xl >> ((128 - s) as u128) })) as int,
-            (#[trigger] (xl << s)) as int, (y << s) as int),
+            (#[trigger] ((xh << s) | sh)) as int, (#[trigger] (xl << s)) as int, (y << s) as int),
 {
     let m = B128();
     lemma_b128();
@@ -624,7 +624,6 @@ pub broadcast proof fn lemma_normalize(y: u128, r: int, xh: u128, xl: u128, s: u
     vstd::arithmetic::div_mod::lemma_small_mod(((xh as int) * p) as nat, m as nat);
     assert((xh << s) as int == xh * p);
     // the low word: xl * p == sh * 2^128 + (xl << s)
-    let sh = if s == 0 { 0u128 } else { xl >> ((128 - s) as u128) };
     let xlp = (xl as int) * p;
     assert(0 <= xlp) by (nonlinear_arith) requires xl >= 0, p >= 0, xlp == (xl as int) * p;
     lemma_shl_p2(xl, s);
@@ -687,6 +686,15 @@ pub open spec fn digit_ctx(u32: int, u1: int, v: int, v1: int, v0: int) -> bool 
     &&& 0 <= u32 < v
 }
 
+/// everything the correction loop maintains: the estimate state, rhat below 2^64 (the loop leaves as soon as
+/// it is not), the two-limb test does not overflow, and a passed test means the digit is final
+pub open spec fn digit_inv(q: int, rhat: int, u32: int, u1: int, v: int, v1: int, v0: int) -> bool {
+    &&& digit_est(q, rhat, u32, u1, v, v1, v0)
+    &&& rhat < B64()
+    &&& q < B64() ==> 0 <= q * v0 < B128()
+    &&& (q < B64() && q * v0 <= rhat * B64() + u1) ==> digit_done(q, u32, u1, v)
+}
+
 pub proof fn lemma_mul_split(q: int, v1: int, v0: int, k: int)
     ensures q * (v1 * k + v0) == (q * v1) * k + q * v0
 {
@@ -699,10 +707,7 @@ pub broadcast proof fn lemma_digit_init(q: int, rhat: int, u32: int, u1: int, v:
     requires
         digit_ctx(u32, u1, v, v1, v0), q == u32 / v1, rhat == u32 % v1,
     ensures
-        #[trigger] digit_est(q, rhat, u32, u1, v, v1, v0),
-        rhat < B64(),
-        q < B64() ==> 0 <= q * v0 < B128(),
-        (q < B64() && q * v0 <= rhat * B64() + u1) ==> digit_done(q, u32, u1, v),
+        #[trigger] digit_inv(q, rhat, u32, u1, v, v1, v0),
 {
     let b = B64();
     lemma_div_forms(u32, v1);
@@ -723,14 +728,12 @@ pub broadcast proof fn lemma_digit_init(q: int, rhat: int, u32: int, u1: int, v:
 /// one iteration of the correction loop: the estimate was too large (q >= 2^64, or the two-limb test fails)
 pub proof fn lemma_digit_step(q: int, rhat: int, u32: int, u1: int, v: int, v1: int, v0: int)
     requires
-        digit_ctx(u32, u1, v, v1, v0), digit_est(q, rhat, u32, u1, v, v1, v0), rhat < B64(),
+        digit_ctx(u32, u1, v, v1, v0), digit_inv(q, rhat, u32, u1, v, v1, v0),
         q >= B64() || q * v0 > rhat * B64() + u1,
     ensures
         q >= 1,
-        digit_est(q - 1, rhat + v1, u32, u1, v, v1, v0),
         rhat + v1 >= B64() ==> digit_done(q - 1, u32, u1, v),
-        q - 1 < B64() ==> 0 <= (q - 1) * v0 < B128(),
-        (q - 1 < B64() && (q - 1) * v0 <= (rhat + v1) * B64() + u1) ==> digit_done(q - 1, u32, u1, v),
+        rhat + v1 < B64() ==> digit_inv(q - 1, rhat + v1, u32, u1, v, v1, v0),
 {
     let b = B64();
     let u = u32 * b + u1;
@@ -850,6 +853,6 @@ pub broadcast proof fn lemma_shr_p2_b(x: u128, s: u128)
 }
 
 pub broadcast group group_knuth {
-    lemma_shr64, lemma_lo64, lemma_shl64, lemma_normalize, lemma_digit_init, lemma_wrapping_mul_add_sub_mul,
+    lemma_normalize, lemma_digit_init, lemma_wrapping_mul_add_sub_mul,
     lemma_knuth_final, lemma_shr_p2_b,
 }
